@@ -11,6 +11,8 @@ CONSTANTS
   DirectCalls = FALSE
   MaxMsgLen = 3
   AsyncApply = FALSE
+  MaxPerRequest = 99
+  RecursiveRLock = FALSE
 INVARIANTS TypeOK InSync SetTracksDeps NoDeadlock
 PROPERTIES Converges CallerReturns KeepsRetrying
 CHECK_DEADLOCK FALSE
